@@ -16,5 +16,6 @@ CONSTANTS
   Modes = {"entity", "cdata"}
   W <- WEmbEmpty
   RootKinds = {"inst", "class"}
+  EmbPaths = FALSE
 INVARIANT ImplMeetsReq
 CHECK_DEADLOCK FALSE
